@@ -47,6 +47,10 @@ NPQ_KERNELS = [
     dict(name="Bench_Elliptic_f", file=B, cls="HighConditionedElliptic", func="f", cond_weights="cw"),
     # Ackley.f: `np.exp`, `np.sqrt` are the function parameters `expo`, `sqrtf`; `np.cos(c * x)` with c = 2 * np.pi is `cs`
     dict(name="Bench_Ackley_f", file=B, cls="Ackley", func="f", ackley=True, ret="VQ"),
+    # ExpandedScaffers_F6.Scaffes_F6: the pair function on the two columns of an (n, 2) array; `np.sin(np.sqrt(s)) ** 2` is the function
+    # parameter `sn2 s`. The quotient of two vectors is taken entrywise in the field (a zero denominator would be inf/nan in floats and 0 in
+    # Lean; the denominator here is (1 + 0.001 s)² with s a sum of squares, which C20_src_scaffer_pair does not need to know)
+    dict(name="Bench_ScafferPair", file=B, cls="ExpandedScaffers_F6", func="Scaffes_F6", scaffer=True, ret="VQ"),
     # jDE's parameter regeneration (C15): which entries are redrawn (the mask of the first draw against the rate) and from what
     # (the second draw, affinely mapped for F); `uniform(0, 1, size=n)` is the function parameter `draw <ordinal> n`
     dict(name="jDE_get_mutate_F", file="optimizers/_jde.py", cls="jDE", func="_get_mutate_F", params=[], ret="VQ",
@@ -529,6 +533,25 @@ class TrQ:
             if (ka, kb) != ("VQ", "S1"):
                 raise NotRecognised("< operand kinds")
             return f"(NpQ.ltMask {a} {b})", "MB"
+        if self.cfg.get("scaffer"):
+            # M[:, j] for a literal column j
+            if isinstance(e, ast.Subscript) and isinstance(e.value, ast.Name) and self.env.get(e.value.id) == "Q" and isinstance(e.slice, ast.Tuple) \
+                    and len(e.slice.elts) == 2 and ast.unparse(e.slice.elts[0]) == ":" and isinstance(e.slice.elts[1], ast.Constant) \
+                    and isinstance(e.slice.elts[1].value, int) and not isinstance(e.slice.elts[1].value, bool) and e.slice.elts[1].value >= 0:
+                return self.bind(f"NpQ.col {e.value.id} {e.slice.elts[1].value}"), "VQ"
+            # np.sin(np.sqrt(v)) ** 2
+            if isinstance(e, ast.BinOp) and isinstance(e.op, ast.Pow) and is_const(e.right, 2) and isinstance(e.left, ast.Call) and is_np(e.left.func, "sin") \
+                    and len(e.left.args) == 1 and not e.left.keywords and isinstance(e.left.args[0], ast.Call) and is_np(e.left.args[0].func, "sqrt") \
+                    and len(e.left.args[0].args) == 1 and not e.left.args[0].keywords:
+                x, k = self.E(e.left.args[0].args[0])
+                if k != "VQ":
+                    raise NotRecognised("sin(sqrt(.)) operand")
+                return f"({x}.map sn2)", "VQ"
+            # v / w entrywise
+            if isinstance(e, ast.BinOp) and isinstance(e.op, ast.Div) and self._kind(e.left) == "VQ" and self._kind(e.right) == "VQ":
+                a, _ = self.E(e.left)
+                b, _ = self.E(e.right)
+                return self.bind(f"NpQ.vzip (fun a b => a / b) {a} {b}"), "VQ"
         if self.cfg.get("ackley"):
             # c = 2 * np.pi (kind TWOPI: only ever used inside np.cos(c * M))
             if ast.unparse(e) == "2 * np.pi":
@@ -849,7 +872,7 @@ class TrQ:
             raise NotRecognised("returned kind")
         self.lines.append(f"  return {x}")
         lean_k = {"Q": "NpQ.Mat", "VQ": "List Rat", "N": "Nat", "S1": "Rat"}
-        params = ([f"({cfg['cos2pi']} : Rat → Rat)"] if cfg.get("cos2pi") else []) + ([f"({cfg['cos_sqrt_idx']} : Nat → Rat → Rat)"] if cfg.get("cos_sqrt_idx") else []) + ([f"({cfg['cond_weights']} : Nat → Nat → Rat)"] if cfg.get("cond_weights") else []) + (["(expo sqrtf cs : Rat → Rat)"] if cfg.get("ackley") else []) + (["(draw : Nat → Nat → List Rat)"] if self.draws else []) \
+        params = ([f"({cfg['cos2pi']} : Rat → Rat)"] if cfg.get("cos2pi") else []) + ([f"({cfg['cos_sqrt_idx']} : Nat → Rat → Rat)"] if cfg.get("cos_sqrt_idx") else []) + ([f"({cfg['cond_weights']} : Nat → Nat → Rat)"] if cfg.get("cond_weights") else []) + (["(expo sqrtf cs : Rat → Rat)"] if cfg.get("ackley") else []) + (["(sn2 : Rat → Rat)"] if cfg.get("scaffer") else []) + (["(draw : Nat → Nat → List Rat)"] if self.draws else []) \
             + [f"(self{a} : {lean_k[k_]})" for a, k_ in cfg.get("self_attrs", [])] + [f"({p} : {lean_k[k_]})" for p, k_ in plist]
         cls_txt = (cfg["cls"] + ".") if cfg["cls"] else ""
         ret_ty = "Rat" if cfg.get("ret") == "S1" else "List Rat"
